@@ -381,7 +381,11 @@ def check_batch(ctx, res, cases, bucket, full=True):
             continue
         what, expected = verdict
         attributed = None
-        if fid and agree is None and rep_q is not None and "error" not in out and "error" not in rep_q:
+        # only a difference in action can be the listed defect (not: exception, modified / aliased input,
+        # qubit count, wires outside the circuit, more gates), and only when the quirk model returns
+        # exactly the code's gate list and flags a spliced-in renamed section
+        action_failure = what.startswith("result and input act differently") or what.startswith("unitaries differ")
+        if fid and action_failure and agree is None and rep_q is not None and "error" not in out and "error" not in rep_q:
             trig_code = any(code_accepts(s) and renamed(n, s) for s in out["sections"])
             if trig_code and rep_q.get("triggers") and not rep_q.get("validated"):
                 attributed = fid
